@@ -390,3 +390,22 @@ pub fn bigint_narrowing<S: Src>(s: &mut S) {
 }
 trait NegNb { fn is_negative_nb(&self) -> bool; }
 impl NegNb for NB { fn is_negative_nb(&self) -> bool { self.sign() == num_bigint::Sign::Minus } }
+
+/// C03: BigInt (and a Plutus-data integer) is written as uint / nint with the shortest head inside -2^64..2^64-1, as a
+/// tag-2 / tag-3 byte string outside. Draws: sign, three little-endian 64-bit limbs of the magnitude.
+pub fn bigint_form<S: Src>(s: &mut S) {
+    let neg = s.u8() != 0;
+    let (l0, l1, l2) = (s.u64(), s.u64(), s.u64());
+    let mag: NB = NB::from(l0) + (NB::from(l1) << 64) + (NB::from(l2) << 128);
+    let x = if neg { -mag.clone() } else { mag.clone() };
+    let b = BigInt::from_str(&x.to_string()).unwrap();
+    let bytes = b.to_bytes();
+    let pd = PlutusData::new_integer(&b).to_bytes();
+    let mut r = crate::refcbor::Buf::new();
+    let small_pos = !neg && mag.to_u64().is_some();
+    let small_neg = neg && mag != NB::from(0u8) && (mag.clone() - NB::from(1u8)).to_u64().is_some();
+    if small_pos { r.uint(mag.to_u64().unwrap()); assert!(r.eq_vec(&bytes), "BigInt {} is not written as the shortest unsigned integer: {:02x?}", x, bytes); }
+    else if small_neg { r.nint_arg((mag.clone() - NB::from(1u8)).to_u64().unwrap()); assert!(r.eq_vec(&bytes), "BigInt {} is not written as the shortest negative integer: {:02x?}", x, bytes); }
+    else { assert!(bytes[0] == if neg { 0xc3 } else { 0xc2 }, "BigInt {} outside the 64-bit range is not a tagged byte string: {:02x?}", x, bytes); }
+    assert!(pd == bytes, "a Plutus-data integer is written differently from the BigInt it wraps");
+}
